@@ -22,12 +22,16 @@ RUNS = [
 
 
 def run(chk):
-    per = chk.pick(1900, 31250)          # cases per shard: 16 shards -> 3.0e4 / 5.0e5 cases, each executed 4 times
+    per = chk.pick(1600, 31250)          # cases per shard: 16 shards -> 2.6e4 / 5.0e5 cases, each executed 4 times (quick sized to stay under 60 s)
     exes = {f: build(f) for f in ('asan-pat', 'asan-zero')}
     results = []
     for label, flavor, env, scr in RUNS:
         r = chk.run(label, exes[flavor], per, env=env, args=['--scr', scr])
         results.append((label, r))
+    if not chk.quick():
+        # memcheck: a branch on an uninitialised byte (which neither fill pattern may expose) is an error there
+        chk.run('memcheck', cx.build('c10', 'plain'), 625, wrapper=cx.MEMCHECK, timeout=6000, args=['--scr', '0x11'])
+        chk.assumptions.append('thorough: 1.0e4 further cases under valgrind memcheck (plain -O0 build)')
     # purity: the per-case digest of all expansion results must not depend on the auto-variable fill
     # (pattern vs zero), the heap fill byte (0xbe vs 0x55) or the stack scribble byte
     base_label, base = results[0]
